@@ -1,8 +1,9 @@
 """C02 — matching prefers label-compatible pairs, then best score (no blocking pair).
 
 Same tie to the code as C01 (`harness/props/c01.py`: real objects, real `get_object_results`, exact scores handed
-to the Lean model `PEval.Matching.getObjectResults`, cell-by-cell table comparison), with contested scenes
-over-represented.  The oracle is independent of the model: an O(n^2) blocking-pair scan over the real results and,
+to the Lean model `PEval.Matching.getObjectResults`, cell-by-cell table comparison; results compared as sets, another
+winner of an exact tie accepted iff the Lean certificate checker admits it as a run of `TwoStageRun`), with contested scenes
+over-represented.  No error clause: calls outside the quantifier (`c01.out_of_domain`) get no verdict.  The oracle is independent of the model: an O(n^2) blocking-pair scan over the real results and,
 when no two candidate scores tie, a from-scratch sorted-edge two-stage greedy whose assignment must be equal.
 """
 from __future__ import annotations
@@ -25,6 +26,9 @@ THEOREMS = [
         "pick_is_first_best_row_major", "loop_stops_iff_nothing_available", "remaining_lists_increasing", "pick_is_lex_least",
         "refines_row_major_spec", "row_major_spec_functional", "result_is_the_row_major_greedy",
         "row_major_spec_refines_any_best",
+        # other winners of exact ties: the certificate checker run by the driver on the real pairs (lean/PEval/Lemmas/
+        # MatchingCertificate.lean) is sound for the any-best relation, and without ties accepts the result only
+        "certificate_sound", "certificate_unique_of_no_ties",
         # uniqueness of the any-best relation under the weaker, decidable hypothesis "no step has two best candidates"
         "noBestTies_of_noTies", "greedy_unique_of_no_best_ties", "pairs_independent_of_index_order_local",
         # totality companions of the .ok-conditional statements (details: PEval.C01.cell_raises_iff, raises_first_failing_cell)
@@ -156,10 +160,17 @@ def _analyse(case: dict, out: dict) -> dict:
 
 
 def oracle(case: dict, out: dict) -> Optional[str]:
+    # C02 has no error clause and quantifies over "all object sets as in C01 ..., all radius settings": calls outside that
+    # domain (base.out_of_domain: radius list without an entry for a target label, IoU threshold outside [0, 1], ROI-less
+    # objects) get no verdict, whatever the library does with them
+    if base.out_of_domain(case) is not None:
+        base.STATS["c02_no_claim:out-of-domain"] += 1
+        return None
     if "err" in out:
-        exp = base.expected_error(case, out)
-        return None if exp == out["err"] else f"get_object_results raised {out['err']}: no assignment returned"
-    if base.expected_error(case, out) is not None or "facts" not in out:
+        call = "PerceptionEvaluationManager.add_frame_result" if case.get("kind") == "manager" else "get_object_results"
+        return f"{call} raised {out['err']} on an input inside the property's quantifier: no assignment returned"
+    if "facts" not in out or "results" not in out:
+        base.STATS["c02_no_claim:" + ("roi-less(no scores)" if base.is_roiless(case) else "unobservable:table-facts")] += 1
         return None
     info = _analyse(case, out)
     if info["violation"]:
@@ -167,6 +178,8 @@ def oracle(case: dict, out: dict) -> Optional[str]:
     base.STATS["c02_blocking_scans"] += 1
     base.STATS["c02_unmatched_candidate_pairs_scanned"] += info["unmatched_compatible"] + info["unmatched_incompatible"]
     if not info["ties"]:
+        # "When no two candidate scores tie, the result is exactly the documented two-stage greedy assignment" (as a SET of
+        # pairs: the statement does not order the result list)
         want = independent_greedy(case, info["score"], info["compat"])
         base.STATS["c02_independent_greedy_compared"] += 1
         if want != info["pairs"]:
@@ -178,7 +191,7 @@ def oracle(case: dict, out: dict) -> Optional[str]:
 
 def branches(case: dict, out: dict) -> List[str]:
     b = base.branches(case, out)
-    if "err" in out or "trivial" in b or "facts" not in out:
+    if "err" in out or "trivial" in b or "facts" not in out or "results" not in out or base.out_of_domain(case) is not None:
         return b
     info = _analyse(case, out)
     b.append("candidate-scores:" + ("tie" if info["ties"] else "pairwise-different(greedy-compared)"))
